@@ -40,6 +40,9 @@ func (a vec) eq(b vec) bool {
 	return true
 }
 
+// wedgeWindow: how long nothing at all must have moved, with nothing outstanding, before WaitClaim calls it a wedge.
+const wedgeWindow = 10 * time.Second
+
 // QuiesceOpts tunes the rest detector.
 type QuiesceOpts struct {
 	// AllowHeld: messages deliberately held by the harness do not count as activity.
@@ -162,12 +165,32 @@ func WaitFor(cond func() bool, timeout time.Duration) bool {
 // ErrInconclusive: deadline passed and the system was never seen at rest. Any
 // other error: the system is at rest (a wedge) and the claim is still false.
 // Time alone never produces the non-nil, non-inconclusive result: the rest
-// condition is read from hook counters and replicator state.
+// condition is read from hook counters and replicator state; the second way to
+// that result is a wedge - not at rest by the counters (a request never left the
+// replicator), yet nothing has moved for wedgeWindow while no fetch, message or
+// storage operation (all owned by the harness) is outstanding.
 func (w *World) WaitClaim(what string, claim func() bool, stores []iface.Store, o *QuiesceOpts, timeout time.Duration) error {
 	deadline := time.Now().Add(timeout)
+	if o == nil {
+		o = &QuiesceOpts{}
+	}
+	var lastVec vec
+	lastMove := time.Now()
 	for {
 		if WaitFor(claim, 50*time.Millisecond) {
 			return nil
+		}
+		// a wedge that is not a rest: every input of the system is owned by the harness (block fetches, topic
+		// and direct-channel messages, storage), so when none of them is outstanding and no counter, replicator
+		// figure or log length has moved for wedgeWindow, no goroutine of the code under test is computing or
+		// waiting for the outside: those still inside a call are waiting for each other (a lock that is never
+		// released, a slot that is never handed back). That is decided as "the claim does not come true".
+		v, _ := w.snapshot(stores, o)
+		v = append(v, w.InflightFetches(), int64(w.Held()))
+		if lastVec == nil || !v.eq(lastVec) {
+			lastVec, lastMove = v, time.Now()
+		} else if time.Since(lastMove) > wedgeWindow && w.InflightFetches() == 0 && w.Pending() == 0 && (o.AllowHeld || w.Held() == 0) && !claim() {
+			return fmt.Errorf("nothing has moved for %s, no fetch and no message is outstanding, and the claim is still false (the replica is wedged): %s", wedgeWindow, what)
 		}
 		if w.WaitQuiescent(stores, o, 200*time.Millisecond) {
 			// at rest: a grace period, then rest must still hold
